@@ -126,14 +126,6 @@ theorem reduction_perm (init : Int) (xs ys : List Int) (h : xs.Perm ys) :
   intro x _ y _ z
   omega
 
-theorem foldl_add_eq (init : Int) (xs : List Int) : xs.foldl (· + ·) init = init + xs.foldl (· + ·) 0 := by
-  induction xs generalizing init with
-  | nil => simp
-  | cons x xs ih =>
-    simp only [List.foldl_cons]
-    rw [ih (init + x), ih (0 + x)]
-    omega
-
 /-- **Exact reductions do not depend on how the iterations are split among threads**: OpenMP gives each thread a
     chunk list, each thread folds its contributions from the neutral element, the partial results are then
     added to the initial value in some order — always the sequential total. -/
@@ -227,58 +219,6 @@ theorem reduction_schedule_independent (prog : Nat → List Ev) (hrf : RaceFree 
 
 section History
 variable {Inp : Type}
-
-theorem fit_outside (e : Est) (sem : Sem e Inp) (s : Store) (x : Inp) (a : String) (ha : a ∉ e.mayWrite) :
-    sem.fit s x a = sem.nrm a (s a) := by
-  unfold Sem.fit
-  have : a ∉ sem.wr (sem.normalise s) x := fun h => ha (sem.wr_may _ _ _ h)
-  simp [this, Sem.normalise]
-
-theorem mem_setable (e : Est) (a : String) (h : a ∈ e.setable) : a ∉ e.mayWrite := by
-  unfold Est.setable at h
-  rw [List.mem_filterMap] at h
-  obtain ⟨⟨b, k⟩, _, hk⟩ := h
-  cases k <;> simp at hk
-  obtain ⟨h1, rfl⟩ := hk
-  exact h1
-
-/-- the invariant of a history: outside what `fit` may assign, the object is (up to the idempotent normalisation)
-    the fresh object of the current parameters -/
-def HInv (e : Est) (sem : Sem e Inp) (c0 : Store) (s p : Store) : Prop :=
-  ∀ a, a ∉ e.mayWrite → sem.nrm a (s a) = sem.nrm a (e.fresh c0 p a)
-
-theorem hinv_apply (e : Est) (sem : Sem e Inp) (c0 s p : Store) (op : Op Inp) (hop : op.wf e)
-    (h : HInv e sem c0 s p) : HInv e sem c0 (sem.apply s op) (paramsAfter p [op]) := by
-  intro a ha
-  cases op with
-  | fit x =>
-    simp only [Sem.apply, paramsAfter, List.foldl_cons, List.foldl_nil]
-    rw [fit_outside e sem s x a ha, sem.nrm_idem]
-    exact h a ha
-  | setParam b v =>
-    simp only [Sem.apply, paramsAfter, List.foldl_cons, List.foldl_nil]
-    have hb : b ∈ e.setable := hop
-    by_cases hab : a = b
-    · subst hab
-      simp [Est.fresh, hb]
-    · have := h a ha
-      simp only [hab, if_false]
-      unfold Est.fresh at this ⊢
-      simpa [hab] using this
-
-theorem paramsAfter_cons (p : Store) (op : Op Inp) (ops : List (Op Inp)) :
-    paramsAfter p (op :: ops) = paramsAfter (paramsAfter p [op]) ops := by
-  simp [paramsAfter]
-
-theorem hinv_run (e : Est) (sem : Sem e Inp) (c0 : Store) (ops : List (Op Inp)) (hops : ∀ op ∈ ops, op.wf e)
-    (s p : Store) (h : HInv e sem c0 s p) : HInv e sem c0 (sem.run s ops) (paramsAfter p ops) := by
-  induction ops generalizing s p with
-  | nil => simpa [Sem.run, paramsAfter] using h
-  | cons op ops ih =>
-    have h1 := hinv_apply e sem c0 s p op (hops op (by simp)) h
-    have := ih (fun o ho => hops o (by simp [ho])) _ _ h1
-    rw [paramsAfter_cons]
-    simpa [Sem.run] using this
 
 /-- **History independence.** Let `e` be an estimator description that passes `coreOK` (whatever `fit` may assign
     it assigns on every exit; whatever it reads before assigning it never assigns), and `sem` any implementation
@@ -400,78 +340,6 @@ theorem pinned_louvain_history_dependent :
 
 /-! ## (C) `check_random_state` -/
 
-theorem testHolds_int (t : String) (s s' : Int) : testHolds t (.int s) = testHolds t (.int s') := by
-  unfold testHolds
-  split
-  · rfl
-  · split
-    · rfl
-    · split
-      · rfl
-      · rfl
-
-/-- the only branch result compatible with what `crsOK` demands for the seed 7 -/
-theorem branchResult_int (r : String) (w0 : World)
-    (h : match branchResult r (.int 7) w0 with
-      | some (.ok (g, w')) => (g.id == w0.next && g.state == seedState 7 && w'.globalState == w0.globalState) = true
-      | _ => False)
-    (hw : w0 = { globalState := 5, next := 3, entropy := 9 }) :
-    ∀ (s : Int) (w : World), 0 ≤ s ∧ s < 4294967296 → branchResult r (.int s) w =
-      some (.ok ({ id := w.next, state := seedState s }, { w with next := w.next + 1 })) := by
-  subst hw
-  intro s w hs
-  unfold branchResult at h ⊢
-  by_cases h1 : (r == "entropy") = true
-  · simp only [h1, if_true] at h
-    simp [seedState] at h
-  · simp only [h1] at h ⊢
-    by_cases h2 : (r == "seeded") = true
-    · simp [h2, hs]
-    · simp only [h2] at h ⊢
-      by_cases h3 : (r == "same") = true
-      · simp [h3] at h
-      · simp only [h3] at h
-        by_cases h4 : (r == "global") = true
-        · simp only [h4, if_true] at h
-          simp at h
-        · simp only [h4] at h
-          by_cases h5 : (r == "raise:TypeError") = true
-          · simp [h5] at h
-          · simp only [h5] at h
-            by_cases h6 : (r == "raise:ValueError") = true
-            · simp [h6] at h
-            · simp [h6] at h
-
-/-- what `crsOK` demands of the int branch, as a proposition -/
-def IntGoal (b : List (String × String)) : Prop :=
-  match checkRandomState b (.int 7) { globalState := 5, next := 3, entropy := 9 } with
-  | some (.ok (g, w')) => (g.id == 3 && g.state == seedState 7 && w'.globalState == 5) = true
-  | _ => False
-
-theorem crs_int (b : List (String × String)) (h : IntGoal b) (s : Int) (w : World)
-    (hs : 0 ≤ s ∧ s < 4294967296) :
-    checkRandomState b (.int s) w =
-      some (.ok ({ id := w.next, state := seedState s }, { w with next := w.next + 1 })) := by
-  induction b with
-  | nil =>
-    unfold IntGoal checkRandomState at h
-    simp at h
-  | cons br rest ih =>
-    obtain ⟨t, r⟩ := br
-    unfold IntGoal at h
-    unfold checkRandomState at h ⊢
-    rw [testHolds_int t s 7]
-    cases hth : testHolds t (.int 7) with
-    | none => simp [hth] at h
-    | some bv =>
-      cases bv with
-      | true =>
-        simp only [hth] at h ⊢
-        exact branchResult_int r _ h rfl s w hs
-      | false =>
-        simp only [hth] at h ⊢
-        exact ih h
-
 /-- **An int seed yields a private generator.** For every branch table that passes `crsOK` (the generated one is
     re-checked on every run), for every seed numpy accepts (`0 ≤ seed < 2^32`, otherwise `RandomState` raises
     ValueError and so does the model) and every world of existing generators (numpy's global one has identity 0): the result is a *new* object
@@ -494,41 +362,6 @@ theorem check_random_state_private (b : List (String × String)) (hb : crsOK b =
   refine ⟨_, _, crs_int b hint s w hs, rfl, ?_, rfl, rfl⟩
   simp only; omega
 
-
-/-- what `crsOK` demands of the `None` branch, as a proposition -/
-def NoneGoal (b : List (String × String)) : Prop :=
-  match checkRandomState b .none { globalState := 5, next := 3, entropy := 9 } with
-  | some (.ok (g, _)) => (g.id != 0) = true
-  | _ => False
-
-theorem branchResult_none (r : String) (w0 : World)
-    (h : match branchResult r .none w0 with
-      | some (.ok (g, _)) => (g.id != 0) = true
-      | _ => False)
-    (hw : w0 = { globalState := 5, next := 3, entropy := 9 }) :
-    ∀ (w : World), 0 < w.next → ∃ g w', branchResult r .none w = some (.ok (g, w')) ∧ g.id ≠ 0 := by
-  subst hw
-  intro w hwn
-  unfold branchResult at h ⊢
-  by_cases h1 : (r == "entropy") = true
-  · simp only [h1, if_true]
-    exact ⟨_, _, rfl, by simp; omega⟩
-  · simp only [h1] at h ⊢
-    by_cases h2 : (r == "seeded") = true
-    · simp [h2] at h
-    · simp only [h2] at h ⊢
-      by_cases h3 : (r == "same") = true
-      · simp [h3] at h
-      · simp only [h3] at h ⊢
-        by_cases h4 : (r == "global") = true
-        · simp [h4] at h
-        · simp only [h4] at h ⊢
-          by_cases h5 : (r == "raise:TypeError") = true
-          · simp [h5] at h
-          · simp only [h5] at h
-            by_cases h6 : (r == "raise:ValueError") = true
-            · simp [h6] at h
-            · simp [h6] at h
 
 /-- **`None` never yields numpy's global generator**: for every table passing `crsOK` and every world. -/
 theorem check_random_state_none_not_global (b : List (String × String)) (hb : crsOK b = true) (w : World)
